@@ -101,6 +101,20 @@ class Types:
                     for tg in n.targets:
                         if isinstance(tg, ast.Name):
                             env.setdefault(tg.id, set()).update(t)
+                        elif isinstance(tg, ast.Tuple) and all(isinstance(e_, ast.Name) for e_ in tg.elts):
+                            # a, b = (x, y)  /  a, b = pair   where every value `pair` receives in this function is a display
+                            rows = []
+                            if isinstance(n.value, ast.Tuple):
+                                rows = [n.value]
+                            elif isinstance(n.value, ast.Name):
+                                vals_ = [a_.value for a_ in walk_local(fi.node) if isinstance(a_, ast.Assign)
+                                         and any(isinstance(x_, ast.Name) and x_.id == n.value.id for x_ in a_.targets)]
+                                if vals_ and all(isinstance(v_, ast.Tuple) for v_ in vals_):
+                                    rows = vals_
+                            for row in rows:
+                                if len(row.elts) == len(tg.elts):
+                                    for e_, v_ in zip(tg.elts, row.elts):
+                                        env.setdefault(e_.id, set()).update(self.expr_types(v_, fi, env))
                 elif isinstance(n, ast.AnnAssign) and isinstance(n.target, ast.Name):
                     env.setdefault(n.target.id, set()).update(self.ann_types(n.annotation, fi.module, fi.cls))
                     if n.value is not None:
@@ -124,6 +138,13 @@ class Types:
                             cl = self._class_table(base, fi)
                             if cl:
                                 env.setdefault(tgt, set()).update(('classobj', c) for c in cl)
+                    elif isinstance(it, (ast.Name, ast.Attribute)) and isinstance(n.target, ast.Tuple) \
+                            and all(isinstance(e_, ast.Name) for e_ in n.target.elts):
+                        # `for key, klass, flag in ROWS` over a constant table of rows: the columns that hold classes
+                        cols = self._class_columns(it, fi, len(n.target.elts))
+                        for e_, cl in zip(n.target.elts, cols or []):
+                            if cl and not env.get(e_.id):
+                                env.setdefault(e_.id, set()).update(('classobj', c) for c in cl)
             for n in walk_local(fi.node):
                 if isinstance(n, ast.Assign) and len(n.targets) == 1 and isinstance(n.targets[0], ast.Name) and not env.get(n.targets[0].id):
                     v = n.value
@@ -134,6 +155,24 @@ class Types:
                         if cl:
                             env.setdefault(n.targets[0].id, set()).update(('classobj', c) for c in cl)
         return env
+
+    def _class_columns(self, expr, fi: FuncInfo, width: int):
+        """For a constant sequence of rows (tuples) of the given width: per column the classes it holds, or None for a column that
+        does not hold classes only.  None when `expr` is not such a constant."""
+        from .consteval import ConstEval, ClassRef, NotConst
+        if not hasattr(self, '_ce'):
+            self._ce = ConstEval(self.prog)
+        try:
+            val = self._ce.eval(expr, fi.module, fi.cls, {})
+        except (NotConst, Exception):
+            return None
+        if not isinstance(val, (list, tuple)) or not val or not all(isinstance(r, (list, tuple)) and len(r) == width for r in val):
+            return None
+        out = []
+        for i in range(width):
+            col = [r[i] for r in val]
+            out.append([v.ci for v in col] if all(isinstance(v, ClassRef) and v.ci is not None for v in col) else None)
+        return out
 
     def _class_table(self, expr, fi: FuncInfo, _depth=0):
         """The classes a constant registry holds (dict values / list or tuple members), when `expr` is such a constant or a parameter
